@@ -124,16 +124,19 @@ def _gen(seed: int, i: int, tier: str) -> dict:
             ops.append(["line", f"{n};255;0;0;17;{proto}\n"])
             for c in children:
                 ops.append(["line", f"{n};{c};0;0;3;c\n"])
-        elif r < 0.90:
+        elif r < 0.86:
             ops.append(["line", f"{n};{rng.choice(children)};1;0;{rng.choice(types)};{G.payload(rng)}\n"])
+        elif r < 0.90:
+            # the node asks for a value back: the reply goes out at once and leaves what is parked alone
+            ops.append(["line", f"{n};{rng.choice(children)};2;0;{rng.choice(types)};\n"])
         elif r < 0.96:
             # the gateway reports its (unchanged) version again: reply to a version query, or the gateway
             # node presenting itself after a restart - parked commands must survive that
             ops.append(["line", rng.choice([f"0;255;3;0;2;{proto}\n", f"0;255;0;0;18;{proto}\n",
                                             "0;255;3;0;14;Gateway startup complete.\n"])])
-        elif r < 0.975:
+        elif r < 0.97:
             ops.append(["relisten"])
-        elif r < 0.99:
+        elif r < 0.98:
             ops.append(["reenter"])
         else:
             # the gateway was updated: it reports another 2.x version; parked commands survive, the wake signal
